@@ -32,6 +32,12 @@ def handleHdr (ws xmlns to src id lang emitted : String) : Option String := do
     let faithful := Header.sameStart st (Header.expected args)
     pure ((if faithful then "" else "UNFAITHFUL ") ++ showStart st)
 
+def handleTag (bytes : String) : Option String := do
+  let b ← txt bytes
+  match Header.readHeader b.toList with
+  | none => pure "MALFORMED"
+  | some st => pure (showStart st)
+
 /-! ### neg -/
 
 def decHTok (s : String) : Option StreamNeg.HTok :=
@@ -58,7 +64,11 @@ def showVerdict : Except StreamNeg.HErr (StreamNeg.Info × StreamNeg.OutHdr) →
   | .error e => "err:" ++ e.toString
   | .ok (i, o) => s!"ok:{showInfo i}/{hx o.to},{hx o.src},{hx o.xmlns}"
 
-def handleNeg (role ws s2s loc orig jids : String) (hdrs : List String) : Option String := do
+def optNat (s : String) : Option (Option Nat) :=
+  if s == "-" then some none else s.toNat?.map some
+
+def handleNeg (role ws s2s loc orig jids : String) (env : Option (String × String × String))
+    (hdrs : List String) : Option String := do
   let recv ← if role == "r" then some true else if role == "i" then some false else none
   let ws ← parseBool ws; let s2s ← parseBool s2s
   let loc ← txt loc; let orig ← txt orig
@@ -75,8 +85,14 @@ def handleNeg (role ws s2s loc orig jids : String) (hdrs : List String) : Option
     | some (_, c) => c
     | none => none
   let a0 : StreamNeg.Addrs := if recv then ⟨loc, orig⟩ else ⟨orig, loc⟩
-  let vs := StreamNeg.negRun recv ws s2s parseJid a0 hs
-  pure (" ".intercalate (vs.map showVerdict))
+  let (vs, fin) ← match env with
+    | none => some (StreamNeg.negRun recv ws s2s parseJid a0 hs, StreamNeg.negEnd recv ws s2s parseJid a0 hs)
+    | some (tee, budget, cancel) => do
+      let t ← parseBool tee
+      let b ← optNat budget
+      let k ← optNat cancel
+      pure (StreamNeg.negRunE recv ws s2s parseJid t k 0 b a0 hs)
+  pure (" ".intercalate (vs.map showVerdict ++ [s!"final:{hx fin.to},{hx fin.src}"]))
 
 /-! ### bind -/
 
@@ -107,10 +123,14 @@ def handleBindC (locl reply a b ajid bjid : String) : Option String := do
     | some s => if s.isEmpty then "EMPTY" else hx s
   pure s!"{req} {res.err.toString} {hx res.addr} {showBool res.ready}"
 
-def handleBindS (s2s remote reqid reqres cb a cbjid : String) : Option String := do
+def reqAddr (f : String) : Option Bind.JidField :=
+  if f == "-" then some .absent else if f == "!" then some .invalid else (txt f).map .valid
+
+def handleBindS (s2s remote reqid reqres cb a cbjid rto rfrom : String) : Option String := do
   let _ ← parseBool s2s
   let remote ← txt remote; let reqid ← txt reqid; let a ← txt a
   let reqres ← if reqres == "NONE" then some none else (txt reqres).map some
+  let rto ← reqAddr rto; let rfrom ← reqAddr rfrom
   let c : Bind.Callback ← match cb with
     | "nil" => some .default
     | "jid" => if cbjid == "!" then some .failure else (txt cbjid).map .address
@@ -118,26 +138,33 @@ def handleBindS (s2s remote reqid reqres cb a cbjid : String) : Option String :=
     | "serr" => some (.stanzaError a)
     | "err" => some .failure
     | _ => none
-  let r := Bind.server remote reqid reqres c
+  let r := Bind.server remote reqid reqres rto rfrom c
   let args := match r.cbArgs with
     | none => "-"
     | some (j, res) => s!"{hx j}/{hx res}"
   let head := match r.reply with
     | none => "NOREPLY - - -"
-    | some (t, id, asg, cond) =>
-      let j := match asg with
+    | some q =>
+      let j := match q.assigned with
         | none => "-"
         | some .random => "RND"
         | some (.jid j) => hx j
-      s!"{t} {hx id} {j} {cond.getD "-"}"
-  pure s!"{head} {r.err.getD "nil"} {showBool r.ready} {args}"
+      s!"{q.type} {hx q.id} {j} {q.cond.getD "-"}"
+  let tail := match r.reply with
+    | none => "- -"
+    | some q => s!"{hx q.to} {hx q.src}"
+  pure s!"{head} {r.err.getD "nil"} {showBool r.ready} {args} {tail}"
 
 def handle (args : List String) : Option String :=
   match args with
   | ["hdr", ws, xmlns, to, src, id, lang, emitted] => handleHdr ws xmlns to src id lang emitted
-  | "neg" :: role :: ws :: s2s :: loc :: orig :: jids :: hdrs => handleNeg role ws s2s loc orig jids hdrs
+  | "neg" :: role :: ws :: s2s :: loc :: orig :: jids :: hdrs => handleNeg role ws s2s loc orig jids none hdrs
+  | "nege" :: role :: ws :: s2s :: loc :: orig :: jids :: tee :: budget :: cancel :: hdrs =>
+    handleNeg role ws s2s loc orig jids (some (tee, budget, cancel)) hdrs
+  | ["tag", bytes] => handleTag bytes
   | ["bindc", locl, reply, a, b, ajid, bjid] => handleBindC locl reply a b ajid bjid
-  | ["binds", s2s, remote, reqid, reqres, cb, a, cbjid] => handleBindS s2s remote reqid reqres cb a cbjid
+  | ["binds", s2s, remote, reqid, reqres, cb, a, cbjid, rto, rfrom] =>
+    handleBindS s2s remote reqid reqres cb a cbjid rto rfrom
   | _ => none
 
 end XmppModel.Driver.C12
